@@ -448,6 +448,11 @@ func packDataOpt(options []EDNS0, msg []byte, off int) (int, error) {
 
 func unpackStringOctet(msg []byte, off int) (string, int, error) {
 	s := string(msg[off:])
+	// The in-memory form is presentation text: packStringOctet and sprintTxtOctet
+	// interpret backslash escapes, so a literal backslash octet must be escaped.
+	if strings.IndexByte(s, '\\') >= 0 {
+		s = strings.ReplaceAll(s, `\`, `\\`)
+	}
 	return s, len(msg), nil
 }
 
